@@ -25,9 +25,7 @@ def mapv {α β} (f : α → β → β) : List (α × β) → List (α × β)
   | (a, b) :: m => (a, f a b) :: mapv f m
 
 /-- keys are pairwise distinct -/
-def Uniq {α β} : List (α × β) → Prop
-  | [] => True
-  | (a, _) :: m => (∀ p ∈ m, p.1 ≠ a) ∧ Uniq m
+def Uniq {α β} (m : List (α × β)) : Prop := (m.map Prod.fst).Nodup
 
 variable {α β} [DecidableEq α]
 
@@ -104,5 +102,80 @@ theorem get_some_mem (m : List (α × β)) (x : α) (v : β) (h : get m x = some
     by_cases e : a = x
     · subst e; simp [get] at h; subst h; simp
     · simp [get, e] at h; exact List.mem_cons_of_mem _ (ih h)
+
+theorem keys_set_subset (m : List (α × β)) (k : α) (v : β) :
+    ∀ a ∈ (set m k v).map Prod.fst, a = k ∨ a ∈ m.map Prod.fst := by
+  induction m with
+  | nil => intro a ha; simp [set] at ha; exact Or.inl ha
+  | cons e m ih =>
+    obtain ⟨x, y⟩ := e
+    intro a ha
+    by_cases h : x = k
+    · simp only [set, h, if_true, List.map_cons, List.mem_cons] at ha ⊢
+      rcases ha with ha | ha
+      · exact Or.inl ha
+      · exact Or.inr (Or.inr ha)
+    · simp only [set, h, if_false, List.map_cons, List.mem_cons] at ha ⊢
+      rcases ha with ha | ha
+      · exact Or.inr (Or.inl ha)
+      · rcases ih a ha with h1 | h1
+        · exact Or.inl h1
+        · exact Or.inr (Or.inr h1)
+
+theorem uniq_set (m : List (α × β)) (k : α) (v : β) (h : Uniq m) : Uniq (set m k v) := by
+  unfold Uniq at *
+  induction m with
+  | nil => simp [set]
+  | cons e m ih =>
+    obtain ⟨x, y⟩ := e
+    simp only [List.map_cons, List.nodup_cons] at h
+    by_cases hx : x = k
+    · simp only [set, hx, if_true, List.map_cons, List.nodup_cons]
+      rw [← hx]; exact h
+    · simp only [set, hx, if_false, List.map_cons, List.nodup_cons]
+      refine ⟨?_, ih h.2⟩
+      intro hm
+      rcases keys_set_subset m k v x hm with h1 | h1
+      · exact hx h1
+      · exact h.1 h1
+
+theorem keys_del_subset (m : List (α × β)) (k : α) : ∀ a ∈ (del m k).map Prod.fst, a ∈ m.map Prod.fst := by
+  induction m with
+  | nil => intro a ha; simp [del] at ha
+  | cons e m ih =>
+    obtain ⟨x, y⟩ := e
+    intro a ha
+    by_cases h : x = k
+    · simp only [del, h, if_true] at ha
+      exact List.mem_cons_of_mem _ (ih a ha)
+    · simp only [del, h, if_false, List.map_cons, List.mem_cons] at ha ⊢
+      rcases ha with ha | ha
+      · exact Or.inl ha
+      · exact Or.inr (ih a ha)
+
+theorem uniq_del (m : List (α × β)) (k : α) (h : Uniq m) : Uniq (del m k) := by
+  unfold Uniq at *
+  induction m with
+  | nil => simp [del]
+  | cons e m ih =>
+    obtain ⟨x, y⟩ := e
+    simp only [List.map_cons, List.nodup_cons] at h
+    by_cases hx : x = k
+    · simp only [del, hx, if_true]; exact ih h.2
+    · simp only [del, hx, if_false, List.map_cons, List.nodup_cons]
+      exact ⟨fun hm => h.1 (keys_del_subset m k x hm), ih h.2⟩
+
+theorem uniq_get_of_mem (m : List (α × β)) (k : α) (v : β) (h : Uniq m) (hm : (k, v) ∈ m) : get m k = some v := by
+  unfold Uniq at h
+  induction m with
+  | nil => cases hm
+  | cons e m ih =>
+    obtain ⟨x, y⟩ := e
+    simp only [List.map_cons, List.nodup_cons] at h
+    rcases List.mem_cons.mp hm with he | he
+    · cases he; simp [get_cons]
+    · have hx : x ≠ k := by
+        intro e; apply h.1; rw [e]; exact List.mem_map.mpr ⟨(k, v), he, rfl⟩
+      simp [get_cons, hx, ih h.2 he]
 
 end Ldlm.AMap
